@@ -44,5 +44,14 @@ func c20(args []string) error {
 		}
 		o.emit(obj{"kind": "config", "n": cfg.ReplicaCount(), "q": cfg.QuorumSize()})
 	}
+	// a configuration that is asked while it grows (modules may query the threshold before the last replica is known; the answer
+	// must always be the threshold of the current membership), several queries per size
+	grow := core.NewRuntimeConfig(1, pk)
+	for id := 1; id <= 2**members; id++ {
+		grow.AddReplica(&hotstuff.ReplicaInfo{ID: hotstuff.ID(id)})
+		for k := 0; k < 2; k++ {
+			o.emit(obj{"kind": "config", "n": grow.ReplicaCount(), "q": grow.QuorumSize()})
+		}
+	}
 	return o.close()
 }
